@@ -48,13 +48,13 @@ def main():
     evs = c17.run_rigs(chk, [{"kind": "programs", "prefix": "s", "threads": 3, "traces": [ops]}])
     kw = dict(stateful=True, group_key="tr")
     expect("C17 genuine", chk, "BackendStackTrace", evs, [], **kw)
-    e2 = copy.deepcopy(evs); e2[1]["obs"]["t2"]["be"]["get"] = "jax"
+    e2 = copy.deepcopy(evs); e2[1]["obs"]["t2"]["be"]["state"]["get"] = "jax"
     expect("C17 other thread observes a local selection", chk, "BackendStackTrace", e2, ["ObsMismatch"], **kw)
     e2 = copy.deepcopy(evs); e2[3]["out"] = "ok"; e2[3]["name"] = "nope"
     expect("C17 rejected name reported as accepted", chk, "BackendStackTrace", e2, ["AcceptedUnselectableName"], **kw)
     e2 = copy.deepcopy(evs); del e2[2]      # hook removed: the Enter is missing, the Exit has no context
     expect("C17 Enter event removed", chk, "BackendStackTrace", e2, "any", **kw)
-    e2 = copy.deepcopy(evs); e2[4]["obs"]["t0"]["ta"]["fdisp"] = "einsum"
+    e2 = copy.deepcopy(evs); e2[4]["obs"]["t0"]["ta"]["attr"]["fdisp"] = "einsum"
     expect("C17 dispatch not restored after exit", chk, "BackendStackTrace", e2, ["ExitObsMismatch"], **kw)
     # ---- Driver
     cfg = {"alg": "parafac", "seed": 5, "shape": [4, 5, 3], "rank": 2, "data": "generic", "init": "svd", "normalize": True,
